@@ -123,7 +123,10 @@ pub fn laws(thorough: bool) -> Vec<Law> {
         ));
     }
     // commutativity of and / all, associativity-like regrouping
-    let atoms: Vec<P> = if thorough { dsl::all_atoms() } else { let mut a = dsl::basic_atoms(); a.extend(dsl::async_atoms().into_iter().take(4)); a.extend(dsl::builder_atoms().into_iter().take(3)); a };
+    // `a.and(b)` IS `a` with one more task, so a handle of `a` (here: an atom that fires its own
+    // command's handle) also cancels `b`: the `and` laws are stated for operands without such aborts
+    let no_self_abort = |v: Vec<P>| -> Vec<P> { v.into_iter().filter(|p| !matches!(p, P::SelfAbort(..) | P::QuietSelfAbort(_))).collect() };
+    let atoms: Vec<P> = if thorough { no_self_abort(dsl::all_atoms()) } else { let mut a = dsl::basic_atoms(); a.extend(dsl::async_atoms().into_iter().take(4)); a.extend(dsl::builder_atoms().into_iter().take(3)); a };
     for a in &atoms {
         for b in &atoms {
             let pair = P::All(vec![a.clone(), b.clone()]).normalized();
